@@ -119,7 +119,19 @@ def check_l2(case):
     # the model may be trained through fit, fit_transform or fit_predict (what a Pipeline calls for a step that is not the last one)
     via = case.get("train_via", "fit")
     facts["train_via"] = via
-    m = _mod.KMeansL1L2(norm="L2", **np_scalars(kw, case.get("np_params", False)))
+    if case.get("l1_first"):
+        # the instance was first used with the other norm (a grid over `norm` on one object), then reconfigured: the L2 model that follows
+        # is scikit-learn's, in its centres AND in what predict / transform answer
+        m = _mod.KMeansL1L2(norm="L1", **np_scalars(dict(kw, algorithm="lloyd"), case.get("np_params", False)))       # L1 documents lloyd only
+        try:
+            np.random.seed(case["seed"])
+            m.fit(X)
+        except Exception:  # noqa: BLE001 - the L1 fit's own business (C06 l1 clause)
+            pass
+        m.set_params(norm="L2", algorithm=kw["algorithm"])
+    else:
+        m = _mod.KMeansL1L2(norm="L2", **np_scalars(kw, case.get("np_params", False)))
+    facts["l1_first"] = bool(case.get("l1_first"))
     ref = KMeans(**kw)
     np.random.seed(case["seed"])
     out_m = getattr(m, via)(X, sample_weight=w)
@@ -138,7 +150,7 @@ def check_l2(case):
     sref = ref.score(Q if len(Q) else X)
     require(m.score(Q if len(Q) else X) == sref, "l2:score", "", facts)
     return Outcome(["L2", case["dtype"], "init=" + facts["init"], "k=1" if k == 1 else "k>=2", "algorithm=" + kw["algorithm"],
-                    "weights" if case.get("l2_weights") is not None else "no-weights", "via:" + via], k >= 2)
+                    "weights" if case.get("l2_weights") is not None else "no-weights", "via:" + via, "after-an-L1-fit" if case.get("l1_first") else "fresh-instance"], k >= 2)
 
 
 _cell = st.integers(-64, 64).map(lambda v: v / 8.0)
@@ -182,6 +194,6 @@ def _cases(draw, tier="quick"):
 CLAUSES = [
     Clause("l1", check_l1, strategy=lambda tier: with_sk(with_np(_cases(tier))), quick=2400, thorough=40000, quick_shards=12,
            doc="norm='L1': nearest-centre labels, inertia, centres within the data range, predict, transform"),
-    Clause("l2", check_l2, strategy=lambda tier: with_sk(with_np(_cases(tier))), quick=600, thorough=10000, quick_shards=4,
+    Clause("l2", check_l2, strategy=lambda tier: st.builds(lambda c, f: dict(c, l1_first=f), with_sk(with_np(_cases(tier))), st.sampled_from([False, False, True])), quick=600, thorough=10000, quick_shards=4,
            doc="norm='L2' == sklearn KMeans, exactly"),
 ]
